@@ -104,6 +104,14 @@ def run(fn, init, transfer, refine=None, at_exit=None, extra_edges=None, entry=N
                     s2 = refine(cond, idx == 0, s, b)
                     if s2 is None:
                         continue
+                    if s2 == s:
+                        # not recognised as written: try the condition with its named temporaries
+                        # written out (`if (writerPresent)` -> `if ((prev & kBit) != 0)`)
+                        xc = fn.expand_expr(cond)
+                        if xc is not cond:
+                            s2 = refine(xc, idx == 0, s, b)
+                            if s2 is None:
+                                continue
                 push(sb, s2, k)
         if extra_edges and b in extra_edges:
             for sb in extra_edges[b]:
